@@ -36,7 +36,10 @@ def jobs(tier, seed, pool):
     for i in range(300 if tier == 'quick' else 4000):
         r = Rng(seed, PROP, 'b', i)
         ver = r.choice(['OB', 'FO3', 'SK', 'SSE', 'FO4', 'FO76'])
-        add({'settle': True, 'builder': {'version': ver, 'salt': r.below(1 << 30), 'nodes': r.below(3), 'shapes': [hist.shape_spec(r, ver, 'quick', name='s0')]}}, 'cur', 'builder')
+        init = {'settle': True, 'builder': {'version': ver, 'salt': r.below(1 << 30), 'nodes': r.below(3), 'shapes': [hist.shape_spec(r, ver, 'quick', name='s0')]}}
+        if r.chance(0.5):
+            init['edits'] = [{'op': 'SetExportInfo', 'shape': 0, 'salt': r.below(1 << 30)}]   # header export info around the one-byte chunk limit
+        add(init, 'cur', 'builder')
     return out
 
 
